@@ -883,6 +883,18 @@ func (fr *frame) addEdge(from, to *ssa.BasicBlock, st *State, cond string, in ma
 			}
 			s.oblig("inv-keep", label, fr.c.tagsFor(inv), cond, t, pos, inv.Src)
 		}
+		env.prevVals = saved
+		env.prevState = li.hdrState
+		for k, stp := range lc.Steps {
+			t := fx.evalBool(stp.E, env)
+			label := stp.Label
+			if label == "" {
+				label = fmt.Sprintf("L%d.%d", li.ordinal, k)
+			} else {
+				label = fmt.Sprintf("L%d.%s", li.ordinal, label)
+			}
+			s.oblig("step", label, fr.c.tagsFor(stp), cond, t, pos, stp.Src)
+		}
 		if lc.Decreases != nil {
 			v := fx.evalInt(lc.Decreases.E, env)
 			s.oblig("variant", fmt.Sprintf("L%d", li.ordinal), fr.safetyTags(), cond,
